@@ -127,6 +127,19 @@ CLAIMED["C24"] = dict(
     technique="bounded exhaustive runtime-contract check against graph definitions (stand-in) + discharged contracts on the table readers",
 )
 
+CLAIMED["C26"] = dict(
+    category="proof",
+    text="AffineExpr.__add__/__mul__/__neg__/__sub__/__floordiv__/ceil_div/__mod__ (expression and int operands), _try_fold_constant, "
+         "_simplify_add, _simplify_mul and AffineExpr.eval are extracted from /repo and verified for ALL operand expressions and ALL assignments: "
+         "the value of the result equals the operation applied to the values of the operands (divisors: positive constants, as stated), eval "
+         "computes the spec value; nested operator calls through the callee's contract. Simplification by flattening, composition/replacement with "
+         "maps and print+parse are decided by a bounded stand-in on generated trees evaluated on a box against an independent evaluator.",
+    note="Partial correctness (structural recursion assumed); immutable nodes modelled by field functions; floor division by a symbolic divisor "
+         "axiomatised; SimpleAffineExprFlattener, AffineMap.compose/replace and the parser/printer bounded only; __rsub__ outside the statement; pyvc + z3 trusted.",
+    design="§4 C26",
+    technique="contract-based deductive verification against a recursive spec function (one-level unfolding axioms), SMT-discharged; bounded stand-in",
+)
+
 NOT_APPLICABLE = {
     "C04": "whole Printer∘Parser composition over every dialect: recursive string programs; no per-function contract within reach of the SMT-backed generator expresses it",
     "C05": "about 80 dialects of hand-written print/parse pairs and a format-string interpreter; same obstacle as C04",
@@ -140,7 +153,7 @@ NOT_APPLICABLE = {
     "C28": "result preservation of an e-graph pipeline: whole-program statement with no per-function postcondition implying it",
 }
 
-NOT_REACHED = ["C02", "C06", "C09", "C11", "C14", "C18", "C19", "C20", "C25", "C26"]
+NOT_REACHED = ["C02", "C06", "C09", "C11", "C14", "C18", "C19", "C20", "C25"]
 
 
 def main():
